@@ -141,6 +141,8 @@ func famMap(t types.Type) string  { return "M:" + typeStr(t.Underlying()) }
 func (e *enc) regFam(name, sort string) {
 	if _, ok := e.famSort[name]; !ok {
 		e.famSort[name] = sort
+		// element sort: "(Array Int X)" -> X
+		e.famSort["elem:"+name] = strings.TrimSuffix(strings.TrimPrefix(sort, "(Array Int "), ")")
 		e.famOrder = append(e.famOrder, name)
 	}
 }
@@ -212,6 +214,7 @@ type havocSpec struct {
 	writesAll   bool                  // old objects of every affected family may be modified ...
 	writes      map[string]bool       // ... or only of these base families
 	modRefs     []Term                // if non-nil or exact: old objects that may be modified (others are preserved)
+	modFams     []string              // base family of each modRef ("" = unknown)
 	exact       bool                  // modRefs is the complete list of modifiable old objects
 	keepRefs    []Term                // objects preserved whatever happens (non-escaped locals)
 	unknown     bool                  // frame unknown: any old object of any family may have been modified
@@ -261,19 +264,28 @@ func (e *enc) baseGet(b *baseNode, fam string) Term {
 			t = prev
 			break
 		}
-		t = e.declare(fam, sortS)
 		written := sp.writesAll || sp.writes[bf]
 		switch {
 		case !written:
-			// allocation only: every old object keeps its contents
-			e.assume(fmt.Sprintf("(forall ((r Int)) (! (=> (and (< 0 r) (< r %s)) (= (select %s r) (select %s r))) :pattern ((select %s r))))", sp.allocBefore, t, prev, t))
+			// allocation only: old objects keep their contents; the contents of
+			// objects the callee allocates are whatever the (unconstrained)
+			// array holds beyond the allocation counter
+			t = prev
 		case sp.exact:
-			conds := []string{"(< 0 r)", "(< r " + sp.allocBefore + ")"}
-			for _, m := range sp.modRefs {
-				conds = append(conds, "(not (= r "+m+"))")
+			// only the listed objects may have changed
+			t = prev
+			for i, m := range sp.modRefs {
+				if i < len(sp.modFams) && sp.modFams[i] != "" && sp.modFams[i] != bf {
+					continue
+				}
+				nv := e.declare("havoc:"+fam, e.famSort["elem:"+fam])
+				t = fmt.Sprintf("(store %s %s %s)", t, m, nv)
 			}
-			e.assume(fmt.Sprintf("(forall ((r Int)) (! (=> (and %s) (= (select %s r) (select %s r))) :pattern ((select %s r))))", strings.Join(conds, " "), t, prev, t))
+			if t != prev {
+				t = e.define(fam, sortS, t)
+			}
 		default:
+			t = e.declare(fam, sortS)
 			for _, k := range sp.keepRefs {
 				e.assume(fmt.Sprintf("(= (select %s %s) (select %s %s))", t, k, prev, k))
 			}
